@@ -291,3 +291,5 @@ func sortedKeys[V any](m map[string]V) string {
 }
 
 func bufioReader(b []byte) *bufio.Reader { return bufio.NewReader(bytes.NewReader(b)) }
+
+func os_Getenv(k string) string { return os.Getenv(k) }
